@@ -1,0 +1,117 @@
+//go:build verif
+
+// Package verifhook holds hooks for the external verification harness. With the
+// "verif" build tag the harness can widen goroutine interleavings at the points
+// where shared state is touched and can count, fail or kill the process at the
+// n-th storage write.
+package verifhook
+
+import (
+	"fmt"
+	"os"
+	"runtime"
+	"strconv"
+	"sync"
+	"sync/atomic"
+	"time"
+)
+
+var (
+	yieldSeed uint64
+	yieldOn   int32
+	counter   uint64
+)
+
+// SetYield turns seeded yields on (seed != 0) or off (seed == 0).
+func SetYield(seed uint64) {
+	atomic.StoreUint64(&yieldSeed, seed)
+	if seed == 0 {
+		atomic.StoreInt32(&yieldOn, 0)
+	} else {
+		atomic.StoreInt32(&yieldOn, 1)
+	}
+}
+
+// Yield marks a point where goroutines touch shared state: depending on the seed
+// and a global counter it yields the processor or sleeps for a few microseconds.
+func Yield(site string) {
+	if atomic.LoadInt32(&yieldOn) == 0 {
+		return
+	}
+	n := atomic.AddUint64(&counter, 1)
+	x := (n + 0x9e3779b97f4a7c15) * (atomic.LoadUint64(&yieldSeed) | 1)
+	x ^= x >> 29
+	switch x % 5 {
+	case 0:
+		runtime.Gosched()
+	case 1:
+		time.Sleep(time.Duration(x%40) * time.Microsecond)
+	}
+}
+
+// Plan describes what happens at storage writes.
+type Plan struct {
+	// FailAt > 0: the FailAt-th write (1-based) returns an error.
+	FailAt int
+	// Dead: together with FailAt, every later write fails too (the state a process death at that
+	// point leaves behind).
+	Dead bool
+	// ExitAt > 0: the process exits with status 137 right before the ExitAt-th write.
+	ExitAt int
+}
+
+var (
+	mu     sync.Mutex
+	plan   Plan
+	writes int
+	hit    bool
+)
+
+// ErrInjected is returned by injected write failures.
+var ErrInjected = fmt.Errorf("verifhook: injected storage write failure")
+
+func init() {
+	if s := os.Getenv("VERIF_CRASH_AT"); s != "" {
+		if n, err := strconv.Atoi(s); err == nil {
+			plan.ExitAt = n
+		}
+	}
+	if s := os.Getenv("VERIF_FAIL_AT"); s != "" {
+		if n, err := strconv.Atoi(s); err == nil {
+			plan.FailAt = n
+			plan.Dead = os.Getenv("VERIF_FAIL_DEAD") != ""
+		}
+	}
+}
+
+// SetPlan installs a plan and resets the write counter.
+func SetPlan(p Plan) {
+	mu.Lock()
+	plan = p
+	writes = 0
+	hit = false
+	mu.Unlock()
+}
+
+// Writes returns the number of storage writes seen since the last SetPlan and
+// whether a failure was injected.
+func Writes() (int, bool) {
+	mu.Lock()
+	defer mu.Unlock()
+	return writes, hit
+}
+
+// BeforeWrite is called before a write reaches the object store or the ref store.
+func BeforeWrite(kind string) error {
+	mu.Lock()
+	defer mu.Unlock()
+	writes++
+	if plan.ExitAt > 0 && writes == plan.ExitAt {
+		os.Exit(137)
+	}
+	if plan.FailAt > 0 && (writes == plan.FailAt || (plan.Dead && writes > plan.FailAt)) {
+		hit = true
+		return ErrInjected
+	}
+	return nil
+}
